@@ -153,7 +153,9 @@ where
     }
     // Newton iterations
     let mut l = (operand / D::from_num(2)) + D::from_num(1);
-    for _i in 0..D::frac_nbits() {
+    // the start value is about operand / 2, so the halving phase takes about
+    // int_nbits / 2 steps before quadratic convergence starts
+    for _i in 0..(D::frac_nbits() + D::int_nbits() / 2) {
         #[cfg(substrate_fixed_verif)]
         crate::verif::tick();
         l = (l + operand / l) / D::from_num(2);
